@@ -6,8 +6,8 @@
 namespace vf {
 
 // G-COVER: every (context, byte) of the un-minimised RFC automaton.
-uint64_t gcover_count();                            // big states * 256 * 3 variants
-Str gcover_case(uint64_t idx, Rng& rng);            // variant 0: access+c ; 1: access+c+completion ; 2: pumped access + c + completion
+uint64_t gcover_count();                            // big states * 256 * 4 variants
+Str gcover_case(uint64_t idx, Rng& rng);            // variant 0: access+c ; 1: access+c+completion ; 2: pumped access + c + completion ; 3: access + c + text going on
 // G-ENUM: all strings over an alphabet up to a length; idx -> string (shortlex). count = sum_{l<=L} k^l
 uint64_t genum_count(size_t k, size_t maxlen);
 Str genum_case(uint64_t idx, const Str& alphabet, size_t maxlen);
